@@ -205,3 +205,101 @@ func TestVerifC18Readers(t *testing.T) {
 		rec.Case(atLimit || readd, fmt.Sprintf("maxReaders=%d override=%v: %s", maxReaders, override, strings.Join(hist, " ; ")), cls...)
 	})
 }
+
+// ---------------------------------------------------------------------------------------------
+// C18, second entry point: the limit also holds for readers that were *held* while an on-demand
+// publisher was starting and are admitted together when it becomes ready.
+// ---------------------------------------------------------------------------------------------
+
+func c18HeldPathYAML(maxReaders int) string {
+	return fmt.Sprintf("  p:\n    maxReaders: %d\n    runOnDemand: sleep 3600\n    runOnDemandStartTimeout: 60s\n    runOnDemandCloseAfter: 60s\n", maxReaders)
+}
+
+func TestVerifC18HeldReaders(t *testing.T) {
+	rec := kit.R("TestVerifC18HeldReaders")
+	t.Cleanup(kit.Flush)
+
+	rapid.Check(t, func(t *rapid.T) {
+		maxReaders := rapid.IntRange(1, 3).Draw(t, "maxReaders")
+		held := rapid.IntRange(1, 6).Draw(t, "heldReaders")
+		late := rapid.IntRange(0, 2).Draw(t, "lateReaders")
+		confs, err := vcPathConfs(c18HeldPathYAML(maxReaders))
+		if err != nil {
+			t.Fatalf("harness: configuration rejected: %v", err)
+		}
+		pm := vcNewPM(confs, vcPMOpts{WithCmdPool: true})
+		defer pm.Close()
+		desc := fmt.Sprintf("maxReaders=%d held=%d late=%d", maxReaders, held, late)
+
+		type res struct {
+			r   *vcAttachedRdr
+			err error
+		}
+		out := make(chan res, held)
+		for i := 0; i < held; i++ {
+			go func() {
+				r, err := vcAttachRdr(pm.pathManager, "p", nil)
+				out <- res{r, err}
+			}()
+		}
+		// let the requests reach the path (if one arrives after the publisher it is checked against the limit all the same)
+		vcWaitUntil(2*time.Second, func() bool {
+			for _, l := range pm.Log.Snapshot() {
+				if strings.Contains(l, "runOnDemand command started") {
+					return true
+				}
+			}
+			return false
+		})
+		time.Sleep(20 * time.Millisecond)
+
+		pub, err := vcAttachPub(pm.pathManager, "p", "pub")
+		if err != nil {
+			t.Fatalf("%s: publisher refused: %v", desc, err)
+		}
+		var ok []*vcAttachedRdr
+		failed := 0
+		for i := 0; i < held; i++ {
+			select {
+			case r := <-out:
+				if r.err == nil {
+					ok = append(ok, r.r)
+				} else {
+					failed++
+				}
+			case <-time.After(c18Wait):
+				t.Fatalf("%s: a held read request was not answered after the publisher became ready", desc)
+			}
+		}
+		want := held
+		if want > maxReaders {
+			want = maxReaders
+		}
+		if len(ok) != want {
+			t.Fatalf("%s: %d readers were admitted when the on-demand publisher became ready, the limit allows %d (held %d)", desc, len(ok), want, held)
+		}
+		for i := 0; i < late; i++ {
+			r, err := vcAttachRdr(pm.pathManager, "p", nil)
+			wantOK := len(ok) < maxReaders
+			if (err == nil) != wantOK {
+				t.Fatalf("%s: late reader: err=%v, model expects success=%v (attached=%d)", desc, err, wantOK, len(ok))
+			}
+			if err == nil {
+				ok = append(ok, r)
+			}
+		}
+		pa := pm.PathObj("p")
+		d, err := pa.APIPathsGet(pathAPIPathsGetReq{})
+		if err != nil {
+			t.Fatalf("%s: APIPathsGet: %v", desc, err)
+		}
+		if len(d.Readers) != len(ok) || len(d.Readers) > maxReaders {
+			t.Fatalf("%s: the path reports %d readers, model has %d attached (limit %d)", desc, len(d.Readers), len(ok), maxReaders)
+		}
+		for _, r := range ok {
+			r.Detach()
+		}
+		pub.Detach()
+		rec.Case(held > maxReaders, desc, "held-readers")
+	})
+}
